@@ -52,6 +52,10 @@ type Link struct {
 	Timeouts   []*InFlight // timed-out packets whose sender still has to be told (MsgTimeout)
 
 	Dead bool // the consumer chain is no longer produced
+	// CloseConfirm: the consumer closed its CCV channel end (port/channel); the relayer still has to confirm on the provider
+	CloseConfirm bool
+	CloseDone    bool
+	Starved      bool // the relayer has stopped delivering provider packets to this consumer
 }
 
 // Relayer owns all links and the relayer account.
@@ -204,6 +208,23 @@ func (r *Relayer) observeProviderBlock(c *Chain, res *abci.ResponseFinalizeBlock
 
 func (r *Relayer) observeConsumerBlock(l *Link, res *abci.ResponseFinalizeBlock) {
 	evs := collectEvents(res)
+	for _, ev := range evs {
+		if ev.Type == channeltypes.EventTypeChannelCloseInit {
+			port, ch := "", ""
+			for _, a := range ev.Attributes {
+				switch a.Key {
+				case channeltypes.AttributeKeyPortID:
+					port = a.Value
+				case channeltypes.AttributeKeyChannelID:
+					ch = a.Value
+				}
+			}
+			if port == "consumer" && ch == l.ConsChan && !l.CloseDone {
+				l.CloseConfirm = true
+				r.W.Op("consumer %s closed its CCV channel end", l.CID)
+			}
+		}
+	}
 	h := l.C.Height()
 	for _, p := range parseSent(evs) {
 		l.ToProv = append(l.ToProv, &InFlight{Packet: p, Height: h, SentStep: r.W.Step})
